@@ -80,6 +80,20 @@ def analyse(case):
     return an
 
 
+def classify(case, out):
+    """Known finding C03-mgm2-offer-overcount: MGM2's _find_best_offer adds the offerer's whole local gain to
+    `current_cost - cost(non-shared constraints)`, counting the current cost of the constraints shared by the
+    two partners twice (4 unit tests pin that value).  It can only show in a cycle where an offer was accepted
+    and both partners sent go?=True: the worsening cycle's changed variables must all belong to such a pair."""
+    if case["algo"] != "mgm2" or out.info.get("phase") != "cost":
+        return None
+    pairs = [set(p) for p in out.info.get("coordinated", [])]
+    changed = out.info.get("changed", [])
+    if changed and any(set(changed) <= p for p in pairs):
+        return "C03-mgm2-offer-overcount"
+    return None
+
+
 def run_errors(an):
     net = an.run.net
     if net.errors:
